@@ -63,6 +63,14 @@ def task_outputs(a, env):
     """one key, all suites interleaved per message (one process, one call history)"""
     r = R("SkToPk/Sign/PopProve")
     msgs = msg_domain()
+    # history: refused calls first (an error path must leave nothing behind)
+    for s_ in a["suites"]:
+        C_ = suite_cls(s_)
+        for bad in (0, R_, "1"):
+            _call(C_.SkToPk, bad)
+            _call(C_.Sign, bad, b"m")
+            if s_ == "pop":
+                _call(C_.PopProve, bad)
     for skh in a["sks"]:
         sk = int(skh, 16)
         todo = [("pk", s, None) for s in a["suites"]]
@@ -71,7 +79,8 @@ def task_outputs(a, env):
         if "pop" in a["suites"]:
             # the key bytes as an ordinary message, before and after the possession proof
             # (same bytes hashed under the signature tag and under the proof tag)
-            todo += [("sign", "pop", OWN_PK), ("pop", "pop", None), ("sign", "pop", OWN_PK), ("sign", "basic", OWN_PK)]
+            todo += [("sign", "pop", OWN_PK), ("pop", "pop", None), ("sign", "pop", OWN_PK), ("sign", "basic", OWN_PK),
+                     ("sign", "aug", OWN_PK)]
         todo += [("sign", s, a["mis"][0]) for s in reversed(a["suites"])]
         for kind, suite, mi in todo:
             exp, got = case(kind, suite, sk, _msg(mi, sk) if mi is not None else None)
